@@ -1829,4 +1829,76 @@ theorem wedgeCallPlan_override_current_defect :
 example : wedgeCallPlan "weight_grigorieff" 3 3 true = ⟨false, 3, 3, [true, true, true]⟩ := by decide
 
 
+/-! ## deepen8: frequency-grid index facts and algebra of the composed product -/
+
+/-- frequency negation `(-j) mod n` is an involution on the positions of an axis -/
+theorem negPos_involutive (n j : Nat) (hj : j < n) : negPos n (negPos n j) = j := by
+  rw [negPos_eq n _ (negPos_lt n j hj), negPos_eq n j hj]
+  split <;> split <;> omega
+
+/-- the zero frequency is its own negation (so symmetric filters constrain nothing at DC) -/
+theorem negPos_zero (n : Nat) : negPos n 0 = 0 := by
+  unfold negPos; simp
+
+/-- the only self-conjugate positions of an axis are DC and, on an even axis, the Nyquist term -/
+theorem negPos_fixed_iff (n j : Nat) (hj : j < n) : negPos n j = j ↔ (j = 0 ∨ 2 * j = n) := by
+  rw [negPos_eq n j hj]
+  split <;> omega
+
+/-- `fftfreq(n)*n` lies in `[-(n/2), (n-1)/2]`: even axes carry the Nyquist term as negative -/
+theorem freqIndex_range (n j : Nat) (hj : j < n) :
+    -((n / 2 : Nat) : Int) ≤ freqIndex n j ∧ freqIndex n j ≤ (((n - 1) / 2 : Nat) : Int) := by
+  rw [freqIndex_eq n j hj]
+  split <;> omega
+
+/-- distinct positions of an axis hold distinct signed frequencies (the grid is a bijection onto its range) -/
+theorem freqIndex_injective (n i j : Nat) (hi : i < n) (hj : j < n) (h : freqIndex n i = freqIndex n j) : i = j := by
+  rw [freqIndex_eq n i hi, freqIndex_eq n j hj] at h
+  split at h <;> split at h <;> omega
+
+/-- on the retained half-spectrum (`j < n/2+1`) the frequency magnitude is the position itself -/
+theorem freqIndex_half_natAbs (n j : Nat) (hj : j < n) (hh : j < halfLen n) : (freqIndex n j).natAbs = j := by
+  unfold halfLen at hh
+  rw [freqIndex_eq n j hj]
+  split <;> omega
+
+/-- the half-spectrum never exceeds the full axis and keeps more than half of it (`n/2+1`) -/
+theorem halfLen_bounds (n : Nat) (hn : 2 ≤ n) : halfLen n ≤ n ∧ n < 2 * halfLen n := by
+  unfold halfLen; omega
+
+/-- a shape that already is a half-spectrum shape is returned unchanged; otherwise its rank is kept -/
+theorem fourierShape_length (shape : List Nat) (b : Bool) : (fourierShape shape b).length = shape.length := by
+  unfold fourierShape
+  split
+  · rfl
+  · exact cropShape_length shape
+
+section
+variable {α : Type} [CommMonoid α]
+
+/-- composing with the all-ones filter is the identity (at every position, inside or outside the array) -/
+theorem product_ones_identity (n : Nat) (parts : List (List α)) (i : Nat) :
+    ((List.replicate n (1 : α) :: parts).map (fun p => p.getD i 1)).prod = (parts.map (fun p => p.getD i 1)).prod := by
+  have h : (List.replicate n (1 : α)).getD i 1 = 1 := by
+    simp only [List.getD_eq_getElem?_getD, List.getElem?_replicate]
+    split <;> rfl
+  rw [List.map_cons, List.prod_cons, h, one_mul]
+
+/-- composition is associative: the product of two concatenated filter chains is the product of the chains' products -/
+theorem product_append (ps qs : List (List α)) (i : Nat) :
+    ((ps ++ qs).map (fun p => p.getD i 1)).prod =
+      (ps.map (fun p => p.getD i 1)).prod * (qs.map (fun p => p.getD i 1)).prod := by
+  rw [List.map_append, List.prod_append]
+
+/-- composition of filters that are each symmetric under a position map `ν` (frequency negation) is symmetric -/
+theorem product_symm (parts : List (List α)) (ν : Nat → Nat) (i : Nat)
+    (h : ∀ p ∈ parts, p.getD (ν i) 1 = p.getD i 1) :
+    (parts.map (fun p => p.getD (ν i) 1)).prod = (parts.map (fun p => p.getD i 1)).prod := by
+  rw [List.map_congr_left h]
+
+end
+
+example : negPos 6 (negPos 6 2) = 2 ∧ negPos 6 3 = 3 ∧ freqIndex 6 3 = -3 ∧ halfLen 6 = 4 := by decide
+
+
 end Pm.C12
